@@ -48,3 +48,11 @@ func (u *eventDispatcher) addHandler(f func()) {
 	u.cond.Signal()
 	u.cond.L.Unlock()
 }
+
+// wake makes dispatchLoop look at its context again. It broadcasts with the lock held: dispatchLoop tests the
+// context and then calls Wait under that lock, so a broadcast made without it could fall between the two and be lost.
+func (u *eventDispatcher) wake() {
+	u.cond.L.Lock()
+	u.cond.Broadcast()
+	u.cond.L.Unlock()
+}
